@@ -172,9 +172,10 @@ func (x *Exec) stmt(fr *Frame, s ast.Stmt, st *State, k func(*State)) {
 	case *ast.GoStmt:
 		x.goStmt(fr, s, st, k)
 	case *ast.SendStmt:
-		x.expr(fr, s.Chan, st, func(st *State, _ Value) {
-			x.expr(fr, s.Value, st, func(st *State, _ Value) {
+		x.expr(fr, s.Chan, st, func(st *State, cv Value) {
+			x.expr(fr, s.Value, st, func(st *State, sv Value) {
 				x.onChanOp(fr, st, s, "send")
+				x.recordSend(st, cv, sv)
 				k(st)
 			})
 		})
@@ -217,6 +218,14 @@ func (x *Exec) stmt(fr *Frame, s ast.Stmt, st *State, k func(*State)) {
 					}
 				}
 				run(st2)
+			case *ast.SendStmt:
+				// case ch <- v: taken only if the send happens
+				x.expr(fr, c.Chan, st2, func(st3 *State, cv Value) {
+					x.expr(fr, c.Value, st3, func(st3 *State, sv Value) {
+						x.recordSend(st3, cv, sv)
+						run(st3)
+					})
+				})
 			default:
 				run(st2)
 			}
@@ -627,6 +636,9 @@ func (x *Exec) analyseLoop(fr *Frame, nodes ...ast.Node) loopInfo {
 						}
 					}
 				}
+			case *ast.SendStmt:
+				li.ghosts["chansends"] = true
+				li.ghosts["chanlast"] = true
 			case *ast.IncDecStmt:
 				mark(s.X)
 			case *ast.RangeStmt:
@@ -1308,4 +1320,13 @@ func (x *Exec) callWritesGhost(fr *Frame, c *ast.CallExpr) (all bool, names []st
 		return false, []string{"callcount"}
 	}
 	return false, nil
+}
+
+// recordSend: ghost record of channel sends - chansends[ch] counts them, chanlast[ch] is the
+// (identity of the) value sent last.  A send that did not happen (the default branch of a
+// select) leaves both unchanged.
+func (x *Exec) recordSend(st *State, ch, v Value) {
+	id := x.identityOf(st, ch)
+	x.ghostSet(st, "chansends", id, Add(x.ghostSel(st, "chansends", id), IntLit(1)))
+	x.ghostSet(st, "chanlast", id, x.identityOf(st, v))
 }
